@@ -174,6 +174,10 @@ def escapedComment(data: Union[bytes, str]) -> bytes:
     Furthermore, whitespace is added when a comment ends in a dash. This is done to break
     the connection of the ending C{-} with the closing C{-->}.
 
+    HTML parsers also end a comment at C{--!>} anywhere in it, and at a C{>} or
+    C{->} that immediately follows the opening C{<!--}; those are broken up in
+    the same way.
+
     @param data: The string to escape.
 
     @return: The quoted form of C{data}. If C{data} is unicode, return a utf-8
@@ -181,7 +185,9 @@ def escapedComment(data: Union[bytes, str]) -> bytes:
     """
     if isinstance(data, str):
         data = data.encode("utf-8")
-    data = data.replace(b"-->", b"--&gt;")
+    data = data.replace(b"-->", b"--&gt;").replace(b"--!>", b"--!&gt;")
+    if data.startswith((b">", b"->")):
+        data = b" " + data
     if data and data[-1:] == b"-":
         data += b" "
     return data
